@@ -943,3 +943,9 @@ mut('C02', 'jsonparser', _USEC, "            usec = int(frac_sec[:7].ljust(6, '0
 mut('C20', 'datatypes', "    def __add__(self, other):\n        if isinstance(other, Qty):", "    def __add__(self, other):\n        if not isinstance(other, Qty):", name='unwrap guard inverted in __add__')
 mut('C04', 'zincdumper', "    return 'Bin(%s)' % dump_str(bin_value, version=version)", "    return None", name='ZINC writer of Bin returns None under 3.0')
 mut('C18', 'version', "VERSION_RE = re.compile(r'^(\\d[\\d\\.]*)([^\\d].*)*$')", "VERSION_RE = re.compile(r'^(\\d[\\d\\.]+)([^\\d].*)*$')", name='single-group versions rejected')
+
+# ---- mutation screening passes 2/3 ------------------------------------------------------------------
+mut('C10', 'grid', "    def version(self):  # pragma: no cover\n        # Trivial function\n        return self._version", "    def version(self):  # pragma: no cover\n        # Trivial function\n        return self.nearest_version", name='Grid.version returns the nearest version')
+mut('C07', 'grid', "    def version(self):  # pragma: no cover\n        # Trivial function\n        return self._version", "    def version(self):  # pragma: no cover\n        # Trivial function\n        return self.nearest_version", name='Grid.version returns the nearest version')
+mut('C03', 'zincparser', "    Bin(toks[1]) if toks[0] == 'Bin' else XStr(toks[0], toks[1])])", "    Bin(toks[1]) if toks[0] == 'Bi' else XStr(toks[0], toks[1])])", name='Bin head word misspelt in the action')
+mut('C11', 'datatypes', "        return 'XStr(%r, %r)' % (self.encoding, self.data_to_string())", "        return 'XStr(%r, %r)' % (self.data, self.data_to_string())", name='XStr repr shows the payload as encoding')
